@@ -1,0 +1,55 @@
+//go:build verif
+
+// Package verifhook is the instrumentation seam used by the external
+// verification harness. With the "verif" build tag, Emit and Yield dispatch
+// to callbacks installed by the harness.
+package verifhook
+
+import "sync/atomic"
+
+// Enabled reports whether the hooks are compiled in.
+const Enabled = true
+
+type emitFn func(site string, id uint64, detail string)
+type yieldFn func(site string, id uint64)
+
+var (
+	emit  atomic.Pointer[emitFn]
+	yield atomic.Pointer[yieldFn]
+)
+
+// SetEmit installs (or, with nil, removes) the Emit callback. The callback may
+// be called while library locks are held: it must not block on library state.
+func SetEmit(f func(site string, id uint64, detail string)) {
+	if f == nil {
+		emit.Store(nil)
+		return
+	}
+	g := emitFn(f)
+	emit.Store(&g)
+}
+
+// SetYield installs (or, with nil, removes) the Yield callback. Yield is only
+// ever called outside critical sections, so the callback may block.
+func SetYield(f func(site string, id uint64)) {
+	if f == nil {
+		yield.Store(nil)
+		return
+	}
+	g := yieldFn(f)
+	yield.Store(&g)
+}
+
+// Emit records that the step named by site happened for object id.
+func Emit(site string, id uint64, detail string) {
+	if f := emit.Load(); f != nil {
+		(*f)(site, id, detail)
+	}
+}
+
+// Yield is a scheduling point at which a harness may hold the caller.
+func Yield(site string, id uint64) {
+	if f := yield.Load(); f != nil {
+		(*f)(site, id)
+	}
+}
